@@ -19,7 +19,16 @@ be one.  "Remain fully usable" is judged statefully: ``lines`` / ``source`` / ``
 returned package (and of the packages ``check()`` worked on, captured by the extension) are compared with the blobs git
 stores at the commit the reference designated before the call (spans from CPython's ``ast``), after the checkout is gone,
 again while a later load of another ref is in progress (inside its ``on_package_loaded``), and after every later
-operation, faulted ones included.
+operation, faulted ones included.  The package being loaded is never read inside its own checkout's lifetime (that could
+fill caches and hide a dependency on the checkout).
+
+Repository content also includes stubs: ``.pyi`` beside a module, ``__init__.pyi``, a stub-only in-package module, and a
+``<pkg>-stubs`` package (stubs of existing modules, a stub-only module, a stub-only sub-package, a stub module that is a
+tracked link), all differing between refs; loads use ``find_stubs_package`` True/False, ``submodules`` True/False, several
+``docstring_parser`` values, and ``tmp_worktree`` + ``load(store_source=True/False)`` directly (``load_git`` has no
+``store_source``).  Stub-originated objects are judged against the ``.pyi`` blob; a docstring merged from stubs onto a
+concrete object against the ``.pyi`` it was written in; with ``store_source=False`` the expectation after cleanup is
+``lines == []`` and ``source == ""`` for every object, without an exception.
 """
 from __future__ import annotations
 
@@ -62,6 +71,13 @@ RULE = ("seeded scratch repositories (4-6 commits incl. package-absent, two API 
         "(on_package_loaded, another checkout alive) and after every later operation; check()'s packages are captured by "
         "the extension and judged the same way (the working-tree package against the files on disk). In the quick tier a "
         "trace longer than 56 events is faulted at its first and last ten events and 36 evenly spread positions. "
+        "Six of seven histories carry stubs, different at every ref: .pyi beside a module + __init__.pyi (absent at one "
+        "variant) + a stub-only in-package module, and/or a <pkg>-stubs package with stubs of existing modules, a stub-only "
+        "module, a stub-only sub-package and (one variant) a stub module that is a tracked link; load options cycle over "
+        "find_stubs_package True/False x submodules True/False x docstring_parser (none, google, numpy, sphinx) x "
+        "resolve_aliases / allow_inspection; check() runs with and without find_stubs_package; tmp_worktree + "
+        "load(store_source=True|False) is used directly (load_git has no store_source); the load whose extension events are "
+        "faulted uses find_stubs_package when the history has a stubs package. "
         "distinct = (history, operation, fault); non-trivial = the fault fires after the temporary worktree exists")
 LEVEL_TEXT = ("For every generated repository every enumerated fault point of load_git/check is exercised once and the "
               "repository snapshot and the private TMPDIR listing are compared before/after; the cleanup commands themselves "
@@ -82,7 +98,12 @@ REQUIRED_COUNTERS = ["snapshots_compared", "tmpdir_listings_checked", "git_step_
                      "nonascii_path_sources_compared_after_cleanup", "sources_compared_during_later_load",
                      "symlinked_sources_compared_during_later_load", "held_results_reread", "check_packages_from_refs_verified",
                      "check_packages_from_working_tree_verified", "checkout_commits_observed", "symlinked_tmpdir_cases",
-                     "symlinked_repo_path_cases", "loads_into_a_shared_lines_collection"]
+                     "symlinked_repo_path_cases", "loads_into_a_shared_lines_collection",
+                     # stub-originated objects and the loader options deciding what is stored
+                     "stub_file_sources_compared_after_cleanup", "stub_only_modules_of_a_stubs_package_compared_after_cleanup",
+                     "docstrings_taken_from_stubs_compared_after_cleanup", "stub_file_sources_compared_during_later_load",
+                     "stub_file_sources_compared_after_later_operations", "loads_without_stored_sources",
+                     "objects_read_after_a_load_without_stored_sources"]
 EXHAUSTIVE = {"quick": False, "thorough": False}
 ASSUMPTIONS = ["the three cleanup commands (worktree remove / worktree prune / branch -D) are never failed nor interrupted; "
                "their real exit statuses are recorded",
@@ -96,7 +117,13 @@ ASSUMPTIONS = ["the three cleanup commands (worktree remove / worktree prune / b
                "non-alias object equal the text git stores for the object's file at the commit the reference designated "
                "(symbolic links followed as a checkout would), with spans taken from CPython's ast; objects built by "
                "dynamic inspection are compared over the line numbers they report",
-               "tracked links point inside the repository (relative targets); links leaving the repository are not generated"]
+               "tracked links point inside the repository (relative targets); links leaving the repository are not generated",
+               "a docstring that the stubs merge put onto a concrete object is judged against the .pyi file of the stub object "
+               "it was written for; a stub-only MEMBER moved into a concrete module (griffe attributes it to the .py file "
+               "while its line numbers are those of the .pyi, in any kind of load) is compared over the line numbers and file "
+               "griffe reports: that mismatch is not specific to Git loading and is left to other properties",
+               "store_source=False (only reachable through tmp_worktree + load): after cleanup lines == [] and source == '' "
+               "for every object and reading them does not raise; docstring.source is not read in that mode"]
 SHARD_TIMEOUT = {"quick": 900, "thorough": 7200}
 NO_REACH = False
 
@@ -129,7 +156,24 @@ NONASCII = [
     '"""Th\u00e9 \u2603 module, \u4e8c."""\n\n\ndef th\u00e9(\u00e5=1, \u00df=2):\n    """Sert le th\u00e9 \u2014 \u00e0 17 h 30."""\n    return \u00e5\n',
     'def th\u00e9():\n    """\u8336."""\n    return "\U0001f375"\n\n\n\u0394 = 0.5\n"""\u0394 is small."""\n',
 ]
-EXTRA_KINDS = ["module-link", "dir-link", "outside-link", "nonascii", "dangling-link"]
+EXTRA_KINDS = ["module-link", "dir-link", "outside-link", "nonascii", "dangling-link", "inline-stubs", "stubs-package"]
+
+
+def stub_texts(where: str, v: int) -> dict:
+    """Stub (.pyi) texts; ``where`` ('inline' | 'package') and the API variant are written into every text, so that a source
+    served from the wrong file or the wrong ref is visible. ``g`` / ``helper`` / ``K.m`` have no docstring in the concrete
+    modules: their docstrings come from the stubs and keep pointing into the .pyi file."""
+    return {
+        "init": (f'def g() -> int:\n    """Doc of g, written in the {where} stubs, variant {v}."""\n\n\n'
+                 f'def f(a: int{", b: int = ..." if v == 0 else ""}) -> int: ...\n'),
+        "sub": (f'class K:\n    x: int\n\n    def m(self, y: int = ...) -> int:\n        """Doc of m, {where} stubs, variant {v}."""\n\n'
+                f'    def only_in_stubs(self) -> None: ...\n\n\ndef helper(z: str) -> str:\n    """Doc of helper, {where} stubs, variant {v}."""\n'),
+        "only": (f'"""Compiled helpers ({where} stubs, no concrete module), variant {v}."""\n\n\nclass Buffer:\n    """A buffer, {v}."""\n\n'
+                 f'    size: int\n\n    def read(self, n: int = ...) -> bytes:\n        """Read n bytes ({where}, {v})."""\n\n\n'
+                 + ("def crc(data: bytes, seed: int = ...) -> int: ...\n" if v == 2 else "def crc(data: bytes) -> int: ...\n")),
+        "ext_init": f'"""Stub-only sub-package, variant {v}."""\nLEVEL: int\n"""Doc of LEVEL, {v}."""\n',
+        "ext_deep": f'def deep(n: int) -> list[int]:\n    """Deep, variant {v}."""\n',
+    }
 
 
 def extra_files(prefix: str, name: str, variant: int, extras: dict) -> dict:
@@ -161,6 +205,23 @@ def extra_files(prefix: str, name: str, variant: int, extras: dict) -> dict:
         out[pk + extras["nonascii"] + ".py"] = NONASCII[variant]
     if "dangling-link" in extras:
         out[pk + "gone.py"] = {"symlink": "nowhere.py"}
+    if "inline-stubs" in extras:
+        # stubs inside the package: beside a module, for the package itself, and for a module that has no .py at all
+        t = stub_texts("inline", variant)
+        out[pk + "sub.pyi"] = t["sub"]
+        out[pk + "__init__.pyi"] = t["init"] if variant != 1 else None
+        out[pk + "_native.pyi"] = t["only"]
+    if "stubs-package" in extras:
+        # a stubs-only distribution `<pkg>-stubs` next to the package: stubs for existing modules, a stub-only module, a
+        # stub-only sub-package, and (one variant) a stub module that is a tracked link to another stub module
+        t = stub_texts("package", variant)
+        sp = f"{prefix}{name}-stubs/"
+        out[sp + "__init__.pyi"] = t["init"]
+        out[sp + "sub.pyi"] = t["sub"] if variant != 2 else None
+        out[sp + "_speedups.pyi"] = t["only"]
+        out[sp + "ext/__init__.pyi"] = t["ext_init"]
+        out[sp + "ext/deep.pyi"] = t["ext_deep"]
+        out[sp + "_fast.pyi"] = {"symlink": "_speedups.pyi"} if variant == 1 else None
     return out
 
 
@@ -245,6 +306,19 @@ def gen_history(rng: random.Random, tag: str) -> dict:
     if rng.random() < 0.5:
         hist["untracked"][f"{prefix}{name}/\u00e9bauche.py"] = "Y = 2\n"
     hist["tmpdir"] = rng.choice(["plain", "plain", "symlinked"])
+    # stubs (drawn after everything else): inside the package, as a `<pkg>-stubs` package, both, or none
+    stubs = rng.choice([["stubs-package"], ["stubs-package"], ["stubs-package"], ["inline-stubs"], ["inline-stubs"],
+                        ["inline-stubs", "stubs-package"], []])
+    if stubs:
+        added = dict.fromkeys(stubs, True)
+        extras.update(added)
+        for c in commits:
+            if c["state"] != "absent":
+                variant = c["state"] if isinstance(c["state"], int) else 1
+                for k, v in extra_files(prefix, name, variant, added).items():
+                    c["files"].setdefault(k, v)
+        for sd in hist["side"]:
+            sd["files"].update(extra_files(prefix, name, sd["state"], added))
     return hist
 
 
@@ -583,6 +657,10 @@ def verify_sources(rec, pkg, truth: dict, phase: str, label: str, structural_onl
                 rec.maximum("max_symlinks_followed_to_a_source", hops)
             if not rel.isascii():
                 rec.count(f"nonascii_path_sources_compared_{phase}")
+            if rel.endswith(".pyi"):
+                rec.count(f"stub_file_sources_compared_{phase}")
+                if obj.is_module and "-stubs/" in rel:
+                    rec.count(f"stub_only_modules_of_a_stubs_package_compared_{phase}")
             try:
                 lines, source = obj.lines, obj.source
             except Exception as exc:  # noqa: BLE001
@@ -605,18 +683,34 @@ def verify_sources(rec, pkg, truth: dict, phase: str, label: str, structural_onl
                         bad(f"{obj.path} ({rel}): source differs from the text git has")
             doc = obj.docstring
             if doc is not None and doc.lineno is not None and doc.endlineno is not None:
-                span = entry["doc"] if entry and not structural_only else None
+                doc_lines, doc_entry, doc_rel = want_all, entry, rel
+                owner = doc.parent
+                if owner is not None and owner is not obj:
+                    # a docstring taken over from another object (stubs merged into the concrete object): its text lives
+                    # in the file of the object it was written for
+                    omod = owner
+                    while omod is not None and not omod.is_module:
+                        omod = omod.parent
+                    otruth = module_truth(omod) if omod is not None else None
+                    if otruth is None:
+                        doc_lines = None
+                    else:
+                        doc_lines, doc_rel = otruth[0].splitlines(), otruth[2]
+                        doc_entry = ast_index(otruth[0]).get(owner.path[len(omod.path) + 1:] if owner is not omod else "")
+                        rec.count(f"docstrings_taken_from_stubs_compared_{phase}")
+            if doc is not None and doc.lineno is not None and doc.endlineno is not None and doc_lines is not None:
+                span = doc_entry["doc"] if doc_entry and not structural_only else None
                 if span is None:
                     span = (doc.lineno, doc.endlineno)
                 rec.count(f"docstring_sources_compared_{phase}")
-                want_doc = "\n".join(want_all[span[0] - 1:span[1]])
+                want_doc = "\n".join(doc_lines[span[0] - 1:span[1]])
                 try:
                     got = doc.source
                 except Exception as exc:  # noqa: BLE001
-                    bad(f"{obj.path} ({rel}{', through a symbolic link' if hops else ''}): docstring.source raised {type(exc).__name__}: {exc}")
+                    bad(f"{obj.path} ({doc_rel}{', through a symbolic link' if hops else ''}): docstring.source raised {type(exc).__name__}: {exc}")
                 else:
                     if got != want_doc:
-                        bad(f"{obj.path} ({rel}): docstring.source is {got[:60]!r}, git has {want_doc[:60]!r}")
+                        bad(f"{obj.path} ({doc_rel}): docstring.source is {got[:60]!r}, git has {want_doc[:60]!r}")
         for m in obj.members.values():
             if not m.is_alias:
                 visit(m, mod, mtruth, seen)
@@ -626,6 +720,23 @@ def verify_sources(rec, pkg, truth: dict, phase: str, label: str, structural_onl
     except Exception as exc:  # noqa: BLE001
         bad(f"walking the package raised {type(exc).__name__}: {exc}")
     return problems
+
+
+def verify_nothing_served(rec, pkg, label: str) -> list[str]:  # noqa: ANN001
+    """A load that was told NOT to store sources (``store_source=False``), read after its checkout is gone: no text of the
+    checkout exists any more, so ``lines`` is ``[]`` and ``source`` is ``""`` for every object, and reading them does not
+    raise. (``docstring.source`` is left out: without stored lines it has no defined answer.)"""
+    problems: list[str] = []
+    for o in walk(pkg):
+        rec.count("objects_read_after_a_load_without_stored_sources")
+        try:
+            lines, source = o.lines, o.source
+        except Exception as exc:  # noqa: BLE001
+            problems.append(f"{label}: {o.path}: reading lines/source raised {type(exc).__name__}: {exc}"[:300])
+            continue
+        if lines or source:
+            problems.append(f"{label}: {o.path}: sources were not stored and the checkout is gone, yet lines are {lines[:2]!r}"[:300])
+    return problems[:4]
 
 
 # ------------------------------------------------------------------------------------------
@@ -713,11 +824,9 @@ def run_case(ctx: Ctx, repo: Repo, op: dict) -> dict:  # noqa: C901, PLR0912, PL
     # ground truth fixed BEFORE the operation: the commit each reference designates in the user's repository
     against = repo.resolve(op["against"]) if op.get("against") else None
     base_ref = repo.resolve(op["base_ref"]) if op.get("base_ref") else None
-    want_commits = [gs.commit_of(repo.path, r) if r else None for r in ((ref,) if op["op"] == "load_git" else (against, base_ref))]
+    want_commits = [gs.commit_of(repo.path, r) if r else None for r in ((ref,) if op["op"] != "check" else (against, base_ref))]
     captured: list[dict] = []
     later_problems: list[str] = []
-    during_problems: list[str] = []
-    during_checked: list[int] = []
 
     def observer(pkg) -> None:  # noqa: ANN001
         """Runs inside the load (``on_package_loaded``): the temporary checkout of THIS load exists right now."""
@@ -735,10 +844,8 @@ def run_case(ctx: Ctx, repo: Repo, op: dict) -> dict:  # noqa: C901, PLR0912, PL
             if prev["head"]:
                 later_problems.extend(verify_sources(rec, prev["pkg"], {"tree": repo.tree(prev["head"]), "root": prev["root"]},
                                                      "during_later_load", f"{op['op']} package #{len(captured)}", structural))
-        if item["head"] and fault is None:
-            during_checked.append(1)
-            during_problems.extend(verify_sources(rec, pkg, {"tree": repo.tree(item["head"]), "root": root}, "during_load",
-                                                  f"{op['op']} package #{len(captured) + 1}", structural))
+        # the package being loaded is NOT read here: reading lines inside the checkout's lifetime could fill caches and hide
+        # exactly the dependency on the checkout that is judged after the call returned
         captured.append(item)
 
     ext_state["observer"] = observer
@@ -771,6 +878,13 @@ def run_case(ctx: Ctx, repo: Repo, op: dict) -> dict:  # noqa: C901, PLR0912, PL
                 if op["op"] == "load_git":
                     result = griffe.load_git(op.get("objspec", hist["name"]), ref=ref, repo=repo_arg, search_paths=search,
                                              extensions=griffe.load_extensions(ext), **opts)
+                elif op["op"] == "worktree_load":
+                    # the documented building block used directly: a temporary worktree, a plain load inside it (the only
+                    # way to choose `store_source`, which load_git does not expose), the result used after the block
+                    with griffe.tmp_worktree(repo_arg, ref) as wt:
+                        result = griffe.load(op.get("objspec", hist["name"]), search_paths=[wt / p for p in search or ["."]],
+                                             try_relative_path=False, extensions=griffe.load_extensions(ext),
+                                             store_source=op.get("store_source", True), **opts)
                 else:
                     from _griffe import cli
 
@@ -853,6 +967,8 @@ def run_case(ctx: Ctx, repo: Repo, op: dict) -> dict:  # noqa: C901, PLR0912, PL
         rec.count("faults_after_worktree_exists")
     # ---- judge ---------------------------------------------------------------------------
     problems: list[tuple[str, object]] = []
+    is_load = op["op"] in ("load_git", "worktree_load")
+    stored = op.get("store_source", True)
     if diff:
         problems.append(("the user's repository differs after the operation: " + ", ".join(sorted(diff)), diff))
     if leftovers:
@@ -861,21 +977,24 @@ def run_case(ctx: Ctx, repo: Repo, op: dict) -> dict:  # noqa: C901, PLR0912, PL
     if not fault or not fault_fired:
         if expect == "ok" and exc is not None:
             problems.append((f"operation on a valid reference failed: {type(exc).__name__}: {exc}"[:300], None))
-        if expect != "ok" and exc is None and op["op"] == "load_git" and expect != "broken-sub":
+        if expect != "ok" and exc is None and is_load and expect != "broken-sub":
             problems.append((f"operation expected to fail ({expect}) returned normally", None))
-    if exc is None and op["op"] == "load_git" and result is not None:
-        exp_files = files_at(hist, op["entry"]) if op.get("entry") and expect in ("ok",) else None
+    if exc is None and is_load and result is not None:
+        exp_files = files_at(hist, op["entry"]) if op.get("entry") and expect in ("ok",) and stored else None
         for p in usability(rec, result, hist, exp_files, bool(opts.get("force_inspection"))):
             problems.append((p, None))
         rec.count("successful_loads")
     # ---- source lines of every object, now that every temporary checkout is gone -----------------------------------------
     src_problems: list[str] = list(ext_state.get("observer_errors", []))
     new_hold = None
-    if exc is None and op["op"] == "load_git" and result is not None and want_commits[0]:
+    if exc is None and is_load and result is not None and not stored:
+        rec.count("loads_without_stored_sources")
+        src_problems.extend(verify_nothing_served(rec, result, f"{op['op']}(ref={ref!r}, store_source=False)"))
+    elif exc is None and is_load and result is not None and want_commits[0]:
         top = result.package if hasattr(result, "package") else result
         tfp = top.filepath
         root = None if isinstance(tfp, list) else worktree_root(tfp)
-        label = f"load_git(ref={ref!r})"
+        label = f"{op['op']}(ref={ref!r}{', find_stubs_package' if opts.get('find_stubs_package') else ''})"
         if captured and captured[-1]["head"]:
             rec.count("checkout_commits_observed")
             if captured[-1]["head"] != want_commits[0]:
@@ -883,8 +1002,6 @@ def run_case(ctx: Ctx, repo: Repo, op: dict) -> dict:  # noqa: C901, PLR0912, PL
                                     f"designates {want_commits[0][:10]}")
         truth = {"tree": repo.tree(want_commits[0]), "root": root}
         found = verify_sources(rec, top, truth, "after_cleanup", label, structural)
-        if found and during_checked and not during_problems:
-            found = [x + " (correct while the checkout existed)" for x in found]
         src_problems.extend(found)
         rec.count("loaded_packages_verified_after_cleanup")
         new_hold = {"pkg": top, "truth": truth, "label": label, "structural": structural,
@@ -967,8 +1084,11 @@ def enumerate_static_ops(hist: dict, rng: random.Random) -> list[dict]:
     table = ref_table(hist)
     pre = set(hist["pre_branches"])
     ops: list[dict] = []
-    opt_cycle = [{}, {"resolve_aliases": True}, {"submodules": False}, {"docstring_parser": "google"},
-                 {"resolve_aliases": True, "resolve_implicit": True, "resolve_external": False}, {"allow_inspection": False}]
+    opt_cycle = [{}, {"resolve_aliases": True, "find_stubs_package": True}, {"submodules": False},
+                 {"docstring_parser": "google", "find_stubs_package": True},
+                 {"resolve_aliases": True, "resolve_implicit": True, "resolve_external": False},
+                 {"allow_inspection": False, "find_stubs_package": True}, {"submodules": False, "find_stubs_package": True},
+                 {"docstring_parser": "numpy", "docstring_options": {"warn_unknown_params": False}}]
     forms = ["str", "path", "dot", "link"]
     good = None
     for i, entry in enumerate(table):
@@ -985,6 +1105,14 @@ def enumerate_static_ops(hist: dict, rng: random.Random) -> list[dict]:
     good = good or next(e for e in table if isinstance(e["state"], int) and "griffe-" + normalize(e["ref"].get("name", "x")) not in pre
                         and "name" in e["ref"])
     hist_good = {"ref": good["ref"], "entry": good}
+    # the stubs of the package, wherever they live, with the loader options that decide what is loaded and kept
+    ops.append({"op": "load_git", **hist_good, "opts": {"find_stubs_package": True}, "expect": "ok"})
+    ops.append({"op": "load_git", **hist_good, "opts": {"find_stubs_package": True, "docstring_parser": "sphinx"}, "repo_form": "link",
+                "expect": "ok"})
+    ops.append({"op": "worktree_load", **hist_good, "opts": {"find_stubs_package": True}, "store_source": True, "expect": "ok"})
+    ops.append({"op": "worktree_load", **hist_good, "opts": {"find_stubs_package": True}, "store_source": False, "expect": "ok"})
+    ops.append({"op": "worktree_load", **hist_good, "opts": {"submodules": False}, "store_source": False, "repo_form": "dot",
+                "expect": "ok"})
     # git-step faults of load_git
     for at in (1, 2):
         for kind in GIT_KINDS:
@@ -1021,8 +1149,10 @@ def enumerate_static_ops(hist: dict, rng: random.Random) -> list[dict]:
 def check_ops(hist: dict, tier: str) -> list[dict]:
     pre = set(hist["pre_branches"])
     old = {"name": "v0.1.0"} if "griffe-v0-1-0" not in pre else {"name": "feature/one"}
-    variants = [{"against": old, "base_ref": None}, {"against": old, "base_ref": {"name": "release/0.x/maint"}},
-                {"against": None, "base_ref": None}, {"against": {"name": "rel/0.2"}, "base_ref": {"name": "main"}}]
+    variants = [{"against": old, "base_ref": None}, {"against": old, "base_ref": {"name": "release/0.x/maint"},
+                                                     "opts": {"find_stubs_package": True}},
+                {"against": None, "base_ref": None, "opts": {"find_stubs_package": True}},
+                {"against": {"name": "rel/0.2"}, "base_ref": {"name": "main"}}]
     head_state = None
     for e in ref_table(hist):
         if e["ref"].get("name") == "HEAD":
@@ -1071,15 +1201,17 @@ def run_history(ctx: Ctx, hist: dict, rng: random.Random, tier: str) -> None:
         ops = enumerate_static_ops(hist, rng)
         trace_len = None
         base_for_ext = None
+        # the load whose extension events are faulted one by one: with the stubs package when the history has one
+        base_opts = {"find_stubs_package": True} if "stubs-package" in hist.get("extras", {}) else {}
         for op in ops:
             obs = run_case(ctx, repo, op)
-            if (trace_len is None and op.get("expect") == "ok" and not op.get("fault") and not op.get("opts")
-                    and obs["outcome"] == "returned"):
+            if (trace_len is None and op.get("expect") == "ok" and not op.get("fault") and (op.get("opts") or {}) == base_opts
+                    and op["op"] == "load_git" and obs["outcome"] == "returned"):
                 trace_len = obs["events"]
                 base_for_ext = {k: v for k, v in op.items() if k not in ("fault",)}
         if trace_len is None:
             good = next(o for o in ops if o.get("expect") == "ok" and not o.get("fault"))
-            base_for_ext = {"op": "load_git", "ref": good["ref"], "entry": good["entry"], "expect": "ok"}
+            base_for_ext = {"op": "load_git", "ref": good["ref"], "entry": good["entry"], "opts": base_opts, "expect": "ok"}
             trace_len = run_case(ctx, repo, base_for_ext)["events"]
         ctx.rec.maximum("extension_trace_length", trace_len)
         for op in ext_fault_ops(hist, base_for_ext, trace_len, tier):
